@@ -697,6 +697,15 @@ pub fn run(args: &Args) -> i32 {
     if let Ok(which) = std::env::var("VERIF_C15_TWIN") {
         // development aid (never set by the registered commands): run one scripted history crash-free and print
         let (cfg, ops) = scripted()[which.parse::<usize>().unwrap_or(0) % 2].clone();
+        if let Ok(stop) = std::env::var("VERIF_C15_CASE") {
+            // "<point index>:<occurrence>": print the enumeration case (used to write /verif/regressions/C15/*.json)
+            let mut it = stop.split(':');
+            let point: u8 = it.next().and_then(|x| x.parse().ok()).unwrap_or(0);
+            let occ: u32 = it.next().and_then(|x| x.parse().ok()).unwrap_or(1);
+            let case = Case { cfg: cfg.clone(), ops: ops.clone(), stops: vec![Stop { point, occ: Occ::Nth(occ), ticks_after: 0 }] };
+            println!("{}", serde_json::to_string(&serde_json::json!({"property": "C15", "section": "enumeration", "seed": 0, "tier": "quick", "key": "O4-blocked-after-stop", "what": "hand-picked regression case", "case": case})).unwrap());
+            return 2;
+        }
         let out = execute(&cfg, &ops, &[]);
         eprintln!("TWIN seen_history={:?}\n certified={:?}\n artifacts={:?}\n final_types={:?} state={} violation={:?}", out.seen_history, out.certified, out.artifacts, out.final_types, out.final_state, out.violation);
         return 2;
